@@ -198,6 +198,18 @@ class Module(object):
                 self.funcs[st.name] = Func(self, "%s.%s" % (self.name, st.name), st)
             elif isinstance(st, ast.ClassDef):
                 self.classes[st.name] = st
+            elif isinstance(st, ast.AnnAssign) and st.value is not None and isinstance(st.target, ast.Name):
+                # NAME: type = value  is the assignment NAME = value
+                nm = st.target.id
+                self.const_nodes[nm] = st.value
+                try:
+                    self.const_values[nm] = ast.literal_eval(st.value)
+                except Exception:
+                    try:
+                        self.const_values[nm] = _const_eval(st.value, self)
+                    except Exception:
+                        pass
+                self.toplevel_stmts.append(st)
             elif isinstance(st, ast.Assign):
                 if len(st.targets) == 1 and isinstance(st.targets[0], ast.Name):
                     nm = st.targets[0].id
